@@ -18,6 +18,7 @@ import inspect
 import io
 import json
 import logging
+import os
 import sys
 import types
 
@@ -652,7 +653,8 @@ class RuleSet(object):
         conf = case.get("config")
         self.configured = bool(conf)
         # the names the components WILL have (a configuration applied before they are defined names them already)
-        predicted = {b["id"]: "%s.b%d_%d" % (MODULES[0], b["id"], tag) for b in case["bases"]}
+        predicted = {b["id"]: ("insights.specs.Specs.%s" % b["spec"]) if b["how"] == "spec" else
+                     "%s.b%d_%d" % (MODULES[0], b["id"], tag) for b in case["bases"]}
         predicted.update({r["id"]: rule_name(r, tag) for r in case["rules"]})
         if conf and conf.get("before"):
             apply_real(conf["before"], predicted)
@@ -711,6 +713,8 @@ class RuleSet(object):
 
     def _base(self, b, tag):
         how = b["how"]
+        if how == "spec":                  # a real registry point (only the command line stream: `-b spec=file` seeds it)
+            return getattr(Specs, b["spec"])
 
         def fn():
             if how == "raise":
@@ -2447,6 +2451,33 @@ def cli_case(case):
     return c
 
 
+BARE_SPECS = ["hostname", "redhat_release", "uname"]
+
+
+def add_spec_bases(rng, c):
+    """three registry points as bases and rules that depend on them: required (alone / together with another), in an
+    at-least-one group, optional — so that `-b hostname=...` satisfies some rules and leaves others skipped"""
+    first = max([b["id"] for b in c["bases"]] + [r["id"] for r in c["rules"]]) + 1
+    ids = {}
+    for i, sp in enumerate(BARE_SPECS):
+        ids[sp] = first + i
+        c["bases"].append({"id": first + i, "how": "spec", "spec": sp, "ctype": "spec"})
+    shapes = [("requires", ["hostname"]), ("requires", ["hostname", "uname"]), ("alo", ["uname", "redhat_release"]),
+              ("requires", ["redhat_release"]), ("optional", ["hostname"]), ("alo", ["uname", "hostname"]),
+              ("requires", ["uname"])]
+    rules = list(c["rules"])
+    rng.shuffle(rules)
+    for k, r in enumerate(rules):
+        if k >= 2 and rng.random() < 0.35:
+            continue
+        where, names = shapes[k] if k < 2 else rng.choice(shapes)
+        if where == "alo":
+            r["alo"] = list(r["alo"]) + [[ids[n] for n in names]]
+        else:
+            r[where] = list(r[where]) + [ids[n] for n in names]
+    return c
+
+
 def gen_cli_runs(rng, case, n):
     runs = []
     raising = any((r.get("content") or {}).get("template", "").startswith("raises") for r in case["rules"])
@@ -2454,14 +2485,26 @@ def gen_cli_runs(rng, case, n):
         fmt = CLI_FORMATS[i % len(CLI_FORMATS)] if i < len(CLI_FORMATS) else rng.choice(CLI_FORMATS)
         text = fmt.endswith("text")
         show = rng.sample(SHOW_CHOICES, rng.randint(1, 4)) if rng.random() < 0.5 else []
-        runs.append({"fmt": fmt, "missing": rng.random() < 0.5, "fail_only": rng.random() < 0.3, "show": show,
-                     "render": (not text) and rng.random() < 0.3, "parallel": rng.random() < 0.25,
-                     "no_details": text and (raising or rng.random() < 0.5), "syslog": False})
+        # where the broker and the input come from: the host (a fresh broker), `-b spec=file[,spec=file]` (run() makes a
+        # second broker and seeds it), a directory, or a broker of the caller's handed to _run with the formatter hooked on
+        kinds = ["bare", "host", "bare", "dir", "given", "bare"]
+        inp = kinds[(i + i // len(CLI_FORMATS)) % len(kinds)] if i < 2 * len(CLI_FORMATS) else rng.choice(kinds)
+        bare = rng.choice([["hostname"], ["hostname", "redhat_release"], ["redhat_release"],
+                           ["hostname", "redhat_release", "uname"], ["uname", "hostname"]]) if inp == "bare" else []
+        if inp == "given" and "." in fmt:
+            fmt = "text" if text else ("yaml" if "yaml" in fmt else "json")
+        runs.append({"fmt": fmt, "missing": rng.random() < 0.6, "fail_only": rng.random() < 0.3, "show": show,
+                     "render": (not text) and rng.random() < 0.3, "parallel": inp != "bare" and rng.random() < 0.25,
+                     "no_details": text and (raising or rng.random() < 0.5), "syslog": False, "input": inp, "bare": bare})
     return runs
 
 
-def cli_argv(case, f):
+def cli_argv(case, f, tmp=None):
     argv = ["insights-run", "--no-load-default", "-f", f["fmt"]]
+    if f.get("input") == "bare":
+        argv += ["-b", ",".join("%s=%s" % (sp, os.path.join(tmp or "TMP", "bare_" + sp)) for sp in f["bare"])]
+    if f.get("input") == "dir":
+        argv.insert(1, os.path.join(tmp or "TMP", "root"))
     argv += (["-m"] if f["missing"] else []) + (["-F"] if f["fail_only"] else []) + (["-r"] if f.get("render") else [])
     argv += (["--no-details"] if f.get("no_details") else []) + (["--show-skips"] if case["store_skips"] else [])
     argv += (["--parallel"] if f.get("parallel") else [])
@@ -2491,23 +2534,53 @@ def cli_child():
     buf, real = sys.stdout, sys.__stdout__
     fails, stats = [], {}
     try:
+        import shutil
+        import tempfile
+        from insights.core.context import ExecutionContext
+        from insights.core.spec_factory import TextFileProvider
         rs = RuleSet(case)
         comps = [rs.comps[i] for i in sorted(rs.comps)]
+        tmp = tempfile.mkdtemp(prefix="vc12cli")
+        for sp in BARE_SPECS:
+            with open(os.path.join(tmp, "bare_" + sp), "w") as fh:
+                fh.write("value of %s\n" % sp)
+        os.makedirs(os.path.join(tmp, "root", "insights_commands"))       # marks a HostArchiveContext
+        with open(os.path.join(tmp, "root", "insights_commands", "date"), "w") as fh:
+            fh.write("Tue Sep 29 00:00:00 UTC 2026\n")
+        spec_ids = {b_["spec"]: b_["id"] for b_ in case["bases"] if b_["how"] == "spec"}
+        refs = {}
+
+        def reference(f):
+            """the evaluator API on a broker made by hand with the same seeded values: (response, metadata keys,
+            broker view, broker).  `-b` makes run() use a second broker, which does not get --show-skips (existing
+            behaviour: store_skips stays False there)"""
+            key = (f.get("input") == "bare", tuple(sorted(f.get("bare") or ())))
+            if key not in refs:
+                b0 = rs.broker()
+                if key[0]:
+                    b0.store_skips = False
+                    ctx = ExecutionContext()
+                    b0[ExecutionContext] = ctx
+                    for sp in key[1]:
+                        c_ = rs.comps[spec_ids[sp]]
+                        b0[c_] = TextFileProvider(relative_path=os.path.join(tmp, "bare_" + sp), root="/", ds=c_, ctx=ctx)
+                ev0 = SingleEvaluator(b0, stream=io.StringIO())
+                raw0 = ev0.process(rs.graph)
+                mdk = as_dict("reference SingleEvaluator", "metadata_keys", ev0.metadata_keys, [])
+                ref0, p0 = sanitize_response("reference SingleEvaluator", raw0, mdk)
+                for d in p0:
+                    fails.append((d, None))
+                refs[key] = (ref0, mdk, broker_view(rs, b0), b0)
+            return refs[key]
         with Limit(case["limit"]):
-            # reference: the evaluator API on a hand-made broker
-            b0 = rs.broker()
-            ev0 = SingleEvaluator(b0, stream=io.StringIO())
-            ref_raw = ev0.process(rs.graph)
-            ref_mdkeys = as_dict("reference SingleEvaluator", "metadata_keys", ev0.metadata_keys, [])
-            ref, p0 = sanitize_response("reference SingleEvaluator", ref_raw, ref_mdkeys)
-            for d in p0:
-                fails.append((d, None))
-            ref_view = broker_view(rs, b0)
             table = None
             for f in data["runs"]:
-                argv = cli_argv(case, f)
-                label = " ".join(argv)
+                ref, ref_mdkeys, ref_view, b0 = reference(f)
+                argv = cli_argv(case, f, tmp)
+                label = " ".join(cli_argv(case, f)) + (" [caller's broker handed to _run]" if f.get("input") == "given" else "")
                 k = "cli:-f %s" % f["fmt"]
+                stats[k] = stats.get(k, 0) + 1
+                k = "cli:input %s%s" % (f.get("input", "host"), " " + "+".join(f["bare"]) if f.get("bare") else "")
                 stats[k] = stats.get(k, 0) + 1
                 for o in ("missing", "fail_only", "render", "parallel", "no_details"):
                     if f.get(o):
@@ -2520,7 +2593,17 @@ def cli_child():
                 raised, broker = None, None
                 try:
                     with contextlib.redirect_stderr(io.StringIO()):
-                        broker = insights.run(component=list(comps), print_summary=True)
+                        if f.get("input") == "given":
+                            # what run() does around _run, on a broker of the caller's: the formatter is hooked on the
+                            # broker it is given, the components are evaluated on that broker, then it prints
+                            given = rs.broker()
+                            adapter = parse_text_args(f) if f["fmt"].endswith("text") else \
+                                parse_args("yaml" if "yaml" in f["fmt"] else "json", f)
+                            adapter.preprocess(given)
+                            broker = insights._run(given, dict(rs.graph), None, parallel=bool(f.get("parallel")))
+                            adapter.postprocess(broker)
+                        else:
+                            broker = insights.run(component=list(comps), print_summary=True)
                 except BaseException as ex:      # argparse leaves with SystemExit
                     raised = ex
                 finally:
@@ -2569,6 +2652,7 @@ def cli_child():
                                   "store_skips=%r: (type, present, exceptions) %r" % (label, case["store_skips"], diff), None))
                 stats["cli:runs"] = stats.get("cli:runs", 0) + 1
         stats.update({k: v for k, v in rs.stats.items() if k.startswith("text:")})
+        shutil.rmtree(tmp, ignore_errors=True)
     except Exception as ex:
         import traceback
         fails.append(("the command line run raised %s: %s (%s)" % (type(ex).__name__, ex,
@@ -2796,8 +2880,8 @@ def run(chk):
     n_cli = 5 if quick else 40
     cli_cases = []
     for i in range(n_cli):
-        c = cli_case(gen_case(rng_cli, quick, islands=rng_cli.random() < 0.5))
-        cli_cases.append((c, gen_cli_runs(rng_cli, c, 9 if quick else 16)))
+        c = add_spec_bases(rng_cli, cli_case(gen_case(rng_cli, quick, islands=rng_cli.random() < 0.5)))
+        cli_cases.append((c, gen_cli_runs(rng_cli, c, 12 if quick else 24)))
     cli_children = [(c, runs, spawn_cli(c, runs)) for c, runs in cli_cases[:5]]
 
     # ---- 2. str(dict) rendering
